@@ -11,7 +11,7 @@ CHECKS = {
  'C01': dict(technique=SEQ, ref='6.1',
              text='Solver decides, for every 64-bit parameter value: (a) one arbitrary operation (add, re-add, match entry, an arbitrary later loop iteration, cancel, the three amend kinds, price move) from an ARBITRARY level state with <=N resting orders and <=K tickets preserves "aggregates == sums over the orders the level owns" - match_order is cut at its loop head, so any number of iterations and any history length follow by induction; (b) every history of depth D from an empty level keeps the equality after every step, and no overflow panic is reachable. Bounded by N,K,D (evidence); not a proof. Rebuild-from-snapshot paths are checked under C10.'),
  'C02': dict(technique=SEQ + '; add_transaction also by Kani/CBMC', ref='6.2', engine='E-MIR+E-KANI',
-             text='Every match request in every history of depth D, and one match (<=L iterations) from an arbitrary level state, is checked against: executed+remaining==requested, is_complete, every transaction (positive, level price, taker id, maker resting, opposite side), filled ids == makers that traded and left, per-order fills+remainder <= held quantity (inductive form of the lifetime bound), transaction ids pairwise distinct (UUIDv5 injectivity assumed). add_transaction decided by two engines.'),
+             text='Every match request in every history of depth D, one match (<=L iterations) from an arbitrary level state, and ONE loop iteration from an arbitrary loop-head state (accounting invariant assumed and re-established, so any number of iterations is covered by induction) are checked against: executed+remaining==requested, is_complete, every transaction (positive, level price, taker id, maker resting, opposite side), filled ids == makers that traded and left, per-order fills+remainder <= held quantity (inductive form of the lifetime bound), transaction ids pairwise distinct (UUIDv5 injectivity assumed). add_transaction decided by two engines.'),
  'C03': dict(technique=CONC, ref='6.3',
              text='Two threads x one operation (add/match/cancel/quantity-amend) on an arbitrary level state; for every well-nested interleaving the solver decides aggregates==sums at quiescence and per-order executed+cancelled+resting (<)= supplied. Crossing overlaps, >2 threads, >1 op per thread are outside the bound.'),
  'C04': dict(technique=SEQ + '; ghost arrival ranks and a link invariant to the ticket queue; queue-position violations confirmed by a draining match on the real crate', ref='6.4',
@@ -19,7 +19,7 @@ CHECKS = {
  'C05': dict(technique='symbolic execution of match_against by two encoders (own MIR->SMT and Kani/CBMC) against the rule set of the statement, full 64-bit', ref='6.5', engine='E-MIR+E-KANI',
              text='match_against is loop-free: both engines decide every rule of the statement for every order of every variant and every incoming quantity at full width; the only bound is the machine word. Vacuity witnesses are replayed on the real crate.'),
  'C06': dict(technique=SEQ + '; termination by a solver-checked progress lemma on one loop iteration', ref='6.6',
-             text='Termination: the solver decides that ONE iteration of match_order from an arbitrary loop-head state strictly decreases the well-founded measure (remaining quantity, level hidden quantity, reachable tickets); OrderQueue::pop unwinding asserted. Exhaustion post-conditions decided on one match (<=L iterations) from an arbitrary state and on histories of depth D, quantities from 0.'),
+             text='Termination: the solver decides that ONE iteration of match_order from an arbitrary loop-head state strictly decreases the well-founded measure (remaining quantity, level hidden quantity, reachable tickets); OrderQueue::pop unwinding asserted. Exhaustion: by induction (set-aside makers display nothing + every resting order is covered by a ticket => an exit with quantity remaining leaves no displayed quantity) and, with the at-least-min(requested, displayed) bound, on one match (<=L iterations) from an arbitrary state and on histories of depth D; quantities from 0.'),
  'C07': dict(technique=SEQ + '; read-only entry points executed from their MIR and compared by structural state equality', ref='6.7',
              text='All five update kinds (equal/different price, present/absent id) from an arbitrary level state and inside histories of depth D are compared with the statement (returned order, removed exactly it, others and identity fields untouched, new display for Standard/PostOnly/Iceberg, not-found/rejection change nothing); 14 read-only entry points must leave the complete level state equal.'),
  'C08': dict(technique=CONC, ref='6.8',
